@@ -211,6 +211,11 @@ def _zero_ref(circ: Dict[str, Any]) -> bool:
     return False
 
 
+def libgen_not_constructible():
+    from qv.props import libgen
+    return libgen.CompositeNotConstructible
+
+
 def guarded(acc: Acc, fn, *args, case=None) -> bool:
     """Run one case.  A RecursionError (relation chains beyond the interpreter's recursion limit) is a resource limit of the
     library's recursive time evaluation, not a verdict: counted as inconclusive, the shard continues.  Any other exception
@@ -222,6 +227,10 @@ def guarded(acc: Acc, fn, *args, case=None) -> bool:
         return True
     except RecursionError:
         acc.count("recursion_inconclusive")
+        return False
+    except libgen_not_constructible() as exc:
+        # a composite description whose exclusions leave nothing to build: the constructor rejects it, no circuit is produced
+        acc.count("composite_not_constructible")
         return False
     except Exception as exc:  # noqa: BLE001
         tb = traceback.extract_tb(exc.__traceback__)
